@@ -188,7 +188,10 @@ def check_rmw_protocol(ck, P, rid):
                 if a3 is None or a3.k != "DeclRefExpr" or a3.did != dst.did:
                     ck.violated(rid, inst + ":arg", h.where, "handle_anti_msg does not receive the value the RMW returned (got %s)" % (X.show(args[2]) if len(args) > 2 else "nothing"), cfgname)
                     ok = False
-            fw = [c for c in f.calls("common_msg_process")]
+            fw = Q.calls_via(P, f, "common_msg_process")
+            if not fw:
+                ck.violated(rid, inst + ":forward", a.where, "process_msg never reaches the forward dispatch", cfg)
+                ok = False
             for c in fw:
                 okp, detail = _guard_on_paths(f, a, c, ANTI, False, dst)
                 if not okp:
@@ -295,11 +298,20 @@ def check_flag_access(ck, P, rid):
     cfgname = P.config
     n = 0
     seen_fn = set()
+    owners = Q.owner_closure(P, FLAG_ACCESS_TABLE)
     for field in ("flags", "raw_flags"):
         for f, node, kind in Q.field_accesses(P, "lp_msg", field):
             n += 1
             seen_fn.add(f.name)
             inst = "%s:%s" % (f.name, kind)
+            if f.name not in FLAG_ACCESS_TABLE and f.name in owners:
+                # a static helper acting for an owner: it may do what that owner may
+                allowed, reason = FLAG_ACCESS_TABLE[owners[f.name]]
+                if kind in allowed:
+                    ck.holds(rid, inst, node.where, "static helper of %s: %s" % (owners[f.name], reason), cfg)
+                else:
+                    ck.violated(rid, inst, node.where, "%s (helper of %s) performs a %s on lp_msg.%s; allowed there: %s" % (f.name, owners[f.name], kind, field, sorted(allowed)), cfg)
+                continue
             if f.name not in FLAG_ACCESS_TABLE:
                 ck.violated(rid, "outsider:%s" % f.name, node.where, "%s of lp_msg.%s in %s, which is not one of the functions that own the flag word" % (kind, field, f.name), cfgname)
                 continue
